@@ -233,6 +233,8 @@ class _BaseMMC(MahalanobisMixin):
       it += 1
 
     self.A_ = np.diag(w)
+    self.converged_ = bool(error <= self.tol)
+    self.n_iter_ = it
 
     self.components_ = components_from_metric(self.A_)
     return self
